@@ -207,7 +207,41 @@ func isUser(e *Edge, n string) bool { _, ok := e.Pre[n]; return ok }
 
 // runEdge executes one edge for one concrete name instance; returns number of executions.
 func runEdge(dir string, e *Edge, name string, badClass string, variant int) {
-	sb := newSandbox(dir, e, variant)
+	runEdgeIn(newSandbox(dir, e, variant), e, name, badClass, variant, false)
+}
+
+// recordTime returns the time stamp of the record currently stored for user u (0 if none / unparsable).
+func recordTime(sb *sandbox, u string) int64 {
+	for _, ext := range []string{".user", ".admin"} {
+		if b, err := os.ReadFile(filepath.Join(sb.base, u+ext)); err == nil {
+			line, _ := concrete.SplitFile(b)
+			if r, err := concrete.ParseLine(line); err == nil {
+				return r.Time
+			}
+		}
+	}
+	return 0
+}
+
+// runEdgeIn executes the edge in an existing sandbox.  carry = the directory is the result of the previous
+// steps of a history (nothing is materialised; time stamps and contents are whatever the real code wrote).
+func runEdgeIn(sb *sandbox, e *Edge, name string, badClass string, variant int, carry bool) {
+	want0 := map[string]int64{}
+	oldBytes := map[string][]byte{}
+	for u, f := range e.Pre {
+		want0[u] = T0
+		if carry {
+			want0[u] = recordTime(sb, u)
+			if f.Ext != "none" {
+				oldBytes[u], _ = os.ReadFile(filepath.Join(sb.base, u+"."+f.Ext))
+			}
+		} else if f.Ext != "none" {
+			oldBytes[u] = fileBytes(f, variant)
+		}
+	}
+	if carry { // the configured default may change between the steps of a history
+		must(os.WriteFile(sb.cfg, []byte(concrete.ConfigYAML(sb.base, e.Def, sets, setIDs)), 0600))
+	}
 	d, err := store.NewDirFromConfig(sb.cfg)
 	must(err)
 	before := concrete.Snapshot(sb.root)
@@ -283,8 +317,8 @@ func runEdge(dir string, e *Edge, name string, badClass string, variant int) {
 			if gotUpg != e.Res.Upgradeable {
 				violate("C12", tag+":upgradeable", fmt.Sprintf("model %v real %v (set %d default %d)", e.Res.Upgradeable, gotUpg, e.Pre[e.Name].Set, e.Def), e, name)
 			}
-			if gotChanged.Unix() != T0 {
-				violate("C01", tag+":lastchange", fmt.Sprintf("real %d want %d", gotChanged.Unix(), T0), e, name)
+			if gotChanged.Unix() != want0[e.Name] {
+				violate("C01", tag+":lastchange", fmt.Sprintf("real %d want %d", gotChanged.Unix(), want0[e.Name]), e, name)
 			}
 		}
 	case "list":
@@ -294,8 +328,8 @@ func runEdge(dir string, e *Edge, name string, badClass string, variant int) {
 		got := map[string]ListEntry{}
 		for u, v := range gotList {
 			got[u] = ListEntry{Admin: v.IsAdmin}
-			if v.LastChanged.Unix() != T0 {
-				violate("C01", tag+":lastchange", fmt.Sprintf("%s: real %d want %d", u, v.LastChanged.Unix(), T0), e, name)
+			if v.LastChanged.Unix() != want0[u] {
+				violate("C01", tag+":lastchange", fmt.Sprintf("%s: real %d want %d", u, v.LastChanged.Unix(), want0[u]), e, name)
 			}
 		}
 		want := map[string]ListEntry{}
@@ -355,7 +389,7 @@ func runEdge(dir string, e *Edge, name string, badClass string, variant int) {
 			checkWritten(sb, e, tag, u, nil, t0, t1, name)
 		case "rewritten":
 			expectChanged["~base/"+u+"."+post.Ext] = true
-			checkWritten(sb, e, tag, u, fileBytes(pre, variant), t0, t1, name)
+			checkWritten(sb, e, tag, u, oldBytes[u], t0, t1, name)
 		}
 	}
 	for _, dpath := range diff {
@@ -593,7 +627,61 @@ func lengthSweep(scratch string) {
 	}
 }
 
+// runBehaviour replays one history of the Store model against a single real directory: nothing is
+// re-materialised between the steps, so salts, time stamps and aux bytes are carried by the real files.
+func runBehaviour(dir string, steps []Edge) {
+	if len(steps) == 0 {
+		return
+	}
+	first := steps[0]
+	empty := Edge{Op: "noop", Def: first.Def, Pre: map[string]FileState{}, Post: map[string]FileState{}}
+	for u := range first.Pre {
+		empty.Pre[u] = FileState{Ext: "none", Kind: "none", Aux: "none"}
+	}
+	sb := newSandbox(dir, &empty, 0)
+	cur := empty.Pre
+	for i := range steps {
+		e := &steps[i]
+		if e.Op == "external" || e.Op == "reconfigure" { // environment steps: put the file there ourselves
+			for u, f := range e.Post {
+				if f != cur[u] {
+					os.Remove(filepath.Join(sb.base, u+".user"))
+					os.Remove(filepath.Join(sb.base, u+".admin"))
+					if f.Ext != "none" {
+						must(os.WriteFile(filepath.Join(sb.base, u+"."+f.Ext), fileBytes(f, i), 0600))
+					}
+				}
+			}
+			cur = e.Post
+			continue
+		}
+		if isUser(e, e.Name) || e.Name == "" {
+			runEdgeIn(sb, e, e.Name, "", i, true)
+		}
+		cur = e.Post
+		// the model's state and the real directory must still agree, else later steps would be judged wrongly
+		for u, f := range cur {
+			_, e1 := os.Stat(filepath.Join(sb.base, u+".user"))
+			_, e2 := os.Stat(filepath.Join(sb.base, u+".admin"))
+			realExt := "none"
+			if e1 == nil {
+				realExt = "user"
+			}
+			if e2 == nil {
+				realExt = "admin"
+			}
+			if realExt != f.Ext {
+				return // already reported by runEdgeIn; stop this history here
+			}
+		}
+	}
+	mu.Lock()
+	out.Behaviours++
+	mu.Unlock()
+}
+
 func main() {
+	behaviours := flag.String("behaviours", "", "ndjson file with one history (array of Store edges) per line")
 	sweep := flag.Bool("lengthsweep", false, "also run the password-length boundary sweep")
 	edgesFile := flag.String("edges", "", "ndjson file with one Store edge per line")
 	scratch := flag.String("scratch", "/dev/shm/verif-storereplay", "scratch directory")
@@ -605,6 +693,34 @@ func main() {
 	out.PerOp = map[string]int{}
 	start := time.Now()
 
+	if *behaviours != "" {
+		bf, err := os.Open(*behaviours)
+		must(err)
+		bsc := bufio.NewScanner(bf)
+		bsc.Buffer(make([]byte, 1<<20), 1<<28)
+		bch := make(chan []Edge, 16)
+		var bwg sync.WaitGroup
+		for i := 0; i < *workers; i++ {
+			bwg.Add(1)
+			go func(i int) {
+				defer bwg.Done()
+				for b := range bch {
+					runBehaviour(filepath.Join(*scratch, fmt.Sprintf("b%d", i)), b)
+				}
+			}(i)
+		}
+		for bsc.Scan() {
+			var steps []Edge
+			must(json.Unmarshal(bsc.Bytes(), &steps))
+			out.Edges += len(steps)
+			bch <- steps
+		}
+		close(bch)
+		bwg.Wait()
+	}
+	if *edgesFile == "" {
+		*edgesFile = "/dev/null"
+	}
 	f, err := os.Open(*edgesFile)
 	must(err)
 	defer f.Close()
